@@ -33,12 +33,12 @@ CLAIMS = {
         "renaming fixing every call-site variable and injective on the ideal's variables, errors coincide, same one-step consequences), tagVar_inj / "
         "gensyms_disjoint (two invocations share no macro-local name, nothing is captured), recursive_rejected(_msg,_heads) (a reachable cycle is never accepted, "
         "for any budget), expandBody_total / expandBody_mono (termination; the budget is only a cut-off). Hypotheses (decidable, with non-vacuity examples): "
-        "macro bodies with detached conditions and no agg, at most 100 parameters, call-site aggregations list their bound variables; the first drafts without the "
+        "macro bodies without agg (conditions may be attached to clauses since fix 3a6dc9a), at most 100 parameters, call-site aggregations list their bound variables; the first drafts without the "
         "last two were false as artefacts of the encoding (counterexamples CE.* kept). Tie: generated programs with macros (same macro twice in a rule, call-site "
-        "variable spelled like a macro-local one, nested invocations, head macros) compiled and compared with the printed ideal expansion, the naive oracle and "
-        "the Lean model; 11 recursive-macro shapes through the in-process pipeline. Known findings: F25 (attached conditions escape the renaming, kernel-checked "
-        "witness f25_capture), F26 (expr parameter pasted as raw tokens), FM8 (self-reference through a disjunction not rejected in feasible time), F27 (`?None` "
-        "in a macro body renamed into a binding), each with a coded class predicate and a matched prediction.",
+        "variable spelled like a macro-local one, nested invocations incl. locals bound only through nested arguments, attached conditions, head macros) compiled and compared with the printed ideal expansion, the naive oracle and "
+        "the Lean model; 11 recursive-macro shapes through the in-process pipeline. Known findings: F26 (expr parameter pasted as raw tokens), FM8 (self-reference through a disjunction not rejected in feasible time), F27 (`?None` "
+        "in a macro body renamed into a binding), each with a coded class predicate and a matched prediction; F25 (attached conditions escaped the renaming) is "
+        "fixed by 3a6dc9a: theorems f25_fixed / f25_hygienic / f25_by_theorem.",
    design_ref="DESIGN.md §8 C08",
    note=ENGINE_NOTE + " Token spans (hygiene marks) are modelled by per-invocation tags; F26 (token level), FM8 (time) and F27 are not modelled in Lean."),
  "C11": dict(
